@@ -7,6 +7,9 @@ import (
 	"encoding/binary"
 	"fmt"
 	"math"
+	"os"
+	"os/exec"
+	"path/filepath"
 	"strconv"
 	"strings"
 	"sync"
@@ -52,7 +55,7 @@ func c30Salt(tok string) (bool, string) {
 // c30GenSalts picks the salt of a prng case and a second salt to compare it with: salts of
 // 0,1,4,31,32,33,64,100 (and a few other) bytes; the second one equal, extended, or differing in
 // the first / the last / one byte beyond the first 32 (so the pair shares a 32-byte prefix) or
-// beyond the first 64. Salts never end in a NUL byte here: HMAC pads its key with zeros, so
+// beyond the first 64, in the case of one letter, or by one trailing printable/whitespace byte. Salts never end in a NUL byte here: HMAC pads its key with zeros, so
 // salts that differ only by trailing NULs are the same HKDF salt by construction (see report).
 func c30GenSalts(r *Rng, i int) (string, string) {
 	if r.Intn(3) == 0 {
@@ -78,11 +81,22 @@ func c30GenSalts(r *Rng, i int) (string, string) {
 			other[k] ^= 0x10
 		}
 	}
-	switch k := r.Intn(7); {
+	letter := -1
+	for k, c := range salt {
+		if c|0x20 >= 'a' && c|0x20 <= 'z' {
+			letter = k
+			break
+		}
+	}
+	switch k := r.Intn(9); {
 	case k == 0:
 		// the same salt again
 	case k == 1 || len(salt) == 0:
-		other = append(other, 0x27)
+		other = append(other, Pick(r, []byte{0x27, 0x20, 0x0a, 0x2f, 0x61, 0x09}))
+	case k == 7 && letter >= 0:
+		other[letter] ^= 0x20 // the same text in the other case
+	case k == 8 && len(salt) > 1 && salt[len(salt)-2] != 0:
+		other = other[:len(other)-1] // a proper prefix
 	case k == 2:
 		flip(0)
 	case k == 3:
@@ -225,6 +239,73 @@ func init() {
 		},
 		Exec: c30ExecConc,
 	})
+	register(&Family{
+		Name:    "prng_race",
+		Timeout: 30 * time.Minute,
+		Gen: func(r *Rng, i int, tier string) string {
+			// thorough tier only: the concurrent draws once more under the Go race detector
+			if tier != "thorough" || i >= 2 {
+				return ""
+			}
+			return fmt.Sprintf("seed=%s threads=%d per=%d kinds=%s", hx(r.Bytes(32)), 8+4*i, 3000, []string{"UKJNR", "U"}[i])
+		},
+		Exec: c30ExecRace,
+	})
+}
+
+// c30ExecRace builds this harness once more with -race (same tags, same module file) into a
+// temporary directory and lets that binary execute a prng_conc case; a report of the race
+// detector on stderr is a data race between concurrent calls on one prng.
+//
+//	race=none | detected | unavailable (no race-enabled build possible here: not a verdict)
+func c30ExecRace(in KV) string {
+	exe, err := os.Executable()
+	if err != nil {
+		return "race=unavailable why=no-executable-path"
+	}
+	harn := filepath.Dir(filepath.Dir(exe))
+	tmp, err := os.MkdirTemp("", "c30race")
+	if err != nil {
+		return "race=unavailable why=no-tempdir"
+	}
+	defer os.RemoveAll(tmp)
+	bin := filepath.Join(tmp, "corr-race")
+	args := []string{"build", "-race", "-tags", "verif", "-o", bin}
+	if repo := os.Getenv("VERIF_REPO"); repo != "" {
+		if rp, err := filepath.EvalSymlinks(repo); err == nil && rp != "/repo" {
+			args = append(args, "-modfile=go.scratch.mod")
+		}
+	}
+	build := exec.Command("go", append(args, "./cmd/corr")...)
+	build.Dir = harn
+	build.Env = append(os.Environ(), "CGO_ENABLED=1")
+	if out, err := build.CombinedOutput(); err != nil {
+		return "race=unavailable why=" + sanitize(string(out))
+	}
+	line := fmt.Sprintf("prng_conc seed=%s threads=%s per=%s kinds=%s\n", in["seed"], in["threads"], in["per"], in["kinds"])
+	run := exec.Command(bin, "exec")
+	run.Stdin = strings.NewReader(line)
+	run.Env = append(os.Environ(), "GORACE=halt_on_error=0 exitcode=0")
+	var stderr, stdout bytes.Buffer
+	run.Stderr, run.Stdout = &stderr, &stdout
+	if err := run.Run(); err != nil {
+		return "race=unavailable why=" + sanitize(err.Error())
+	}
+	conc := "?"
+	if i := strings.Index(stdout.String(), "mismatches="); i >= 0 {
+		conc = strings.Fields(stdout.String()[i:])[0]
+	}
+	if strings.Contains(stderr.String(), "DATA RACE") {
+		where := "?"
+		for _, l := range strings.Split(stderr.String(), "\n") {
+			if strings.Contains(l, "utls.") {
+				where = sanitize(strings.TrimSpace(l))
+				break
+			}
+		}
+		return fmt.Sprintf("race=detected %s where=%s", conc, where)
+	}
+	return "race=none " + conc
 }
 
 // c30ExecConc: `threads` goroutines draw `per` values each from one prng; goroutine t uses the
